@@ -78,8 +78,12 @@ func hasInk(b []byte) bool { return len(bytes.TrimFunc(b, unicode.IsSpace)) > 0 
 // Every clause is one of the adjacency theorems of Proofs/C13.lean read as a metamorphic relation
 // on the REAL trimWriter: the case and its rewritten form (the trim operation replaced by a write
 // of the text stripped by the harness with bytes.TrimLeftFunc/TrimRightFunc) must write the same
-// bytes. The pending-TrimRight flag before position i is tracked here (set by R, consumed by any
-// write) and does not come from the model.
+// bytes. Since Write always flushes the previous buffer (repair 2593661) the two "faces text" laws
+// hold for EVERY text, blank and empty included, with or without a pending TrimRight: a hyphen
+// removes the whitespace of the adjacent text up to its nearest non-whitespace character, all of
+// it when the text is blank, and nothing else. The pending-TrimRight flag before position i is
+// tracked here (set by R, consumed by any write), is only needed by the empty-write clause, and
+// does not come from the model.
 func twAdjacentOracle(r *Run, caseLine string, ops []twOp, out []byte) {
 	check := func(clause string, i, n int, repl ...twOp) {
 		alt := append(append(append([]twOp(nil), ops[:i]...), repl...), ops[i+n:]...)
@@ -95,21 +99,22 @@ func twAdjacentOracle(r *Run, caseLine string, ops []twOp, out []byte) {
 		if i+1 < len(ops) {
 			a, b := ops[i], ops[i+1]
 			switch {
-			case a.kind == 'w' && b.kind == 'L' && (hasInk(a.b) || !flag):
-				// trimLeft_adjacent, trimLeft_adjacent_noflag
-				check("trimLeft-adjacent", i, 2, w(bytes.TrimRightFunc(a.b, unicode.IsSpace)))
 			case a.kind == 'w' && b.kind == 'L':
-				// trimLeft_adjacent_ws: blank text between a pending TrimRight and a TrimLeft
-				check("trimLeft-adjacent-blank", i, 2, twOp{kind: 'L'}, w(nil))
-			case a.kind == 'R' && b.kind == 'w' && (hasInk(b.b) || flag):
-				// trimRight_adjacent, trimRight_adjacent_flag
-				check("trimRight-adjacent", i, 2, w(bytes.TrimLeftFunc(b.b, unicode.IsSpace)))
-			case a.kind == 'R' && b.kind == 'w' && len(b.b) > 0:
-				// trimRight_adjacent_ws
-				check("trimRight-adjacent-blank", i, 2, twOp{kind: 'R'}, w(nil))
+				// trimLeft_adjacent_all (trimLeft_adjacent, _noflag, _ws are its special cases)
+				check("trimLeft-adjacent", i, 2, w(bytes.TrimRightFunc(a.b, unicode.IsSpace)))
+				if !hasInk(a.b) {
+					r.Count("adjacent=trimLeft-adjacent(blank-text,flag=" + fmt.Sprint(flag) + ")")
+				}
 			case a.kind == 'R' && b.kind == 'w':
-				// trimRight_empty_write (flag is clear here)
-				check("trimRight-empty-write", i, 2)
+				// trimRight_adjacent_all (trimRight_adjacent, _flag, _ws are its special cases)
+				check("trimRight-adjacent", i, 2, w(bytes.TrimLeftFunc(b.b, unicode.IsSpace)))
+				if !hasInk(b.b) {
+					r.Count("adjacent=trimRight-adjacent(blank-text,flag=" + fmt.Sprint(flag) + ")")
+				}
+				if len(b.b) == 0 && !flag {
+					// trimRight_empty_write: the empty write consumes the flag and flushes
+					check("trimRight-empty-write", i, 2, twOp{kind: 'F'})
+				}
 			case a.kind == 'R' && b.kind == 'L':
 				// trimRight_persists_trimLeft
 				check("trimRight-persists-trimLeft", i, 2, twOp{kind: 'L'}, twOp{kind: 'R'})
@@ -123,6 +128,39 @@ func twAdjacentOracle(r *Run, caseLine string, ops []twOp, out []byte) {
 			flag = true
 		case 'w':
 			flag = false
+		}
+	}
+}
+
+// twLastWriteOracle: a hyphen strips the ADJACENT text only (tw_trimLeft_sees_last_write_only and
+// tw_trimLeft_sees_last_write_only_flag, which hold for ALL byte strings): for `… w(a) w(b) L …`
+// and `… w(a) R w(b) L …` the real trimWriter writes what it writes for the list that ends with
+// w(a), then b right-stripped (left-stripped first when the R is there), then what it writes for
+// the rest alone. So the bytes of the earlier write are out of reach of the TrimLeft, also when b is
+// blank (where the writer before repair 2593661 stripped the end of a as well).
+func twLastWriteOracle(r *Run, caseLine string, ops []twOp, out []byte) {
+	realOut := func(l []twOp) []byte { return bytes.Join(runRealTW(l), nil) }
+	for i := 0; i+2 < len(ops); i++ {
+		if ops[i].kind != 'w' {
+			continue
+		}
+		j, mid, clause := i+1, []byte(nil), "trimLeft-sees-last-write-only"
+		if ops[j].kind == 'R' {
+			j, clause = j+1, "trimLeft-sees-last-write-only(after-trimRight)"
+		}
+		if j+1 >= len(ops) || ops[j].kind != 'w' || ops[j+1].kind != 'L' {
+			continue
+		}
+		mid = ops[j].b
+		if j == i+2 {
+			mid = bytes.TrimLeftFunc(mid, unicode.IsSpace)
+		}
+		mid = bytes.TrimRightFunc(mid, unicode.IsSpace)
+		want := append(append(append([]byte(nil), realOut(ops[:i+1])...), mid...), realOut(ops[j+2:])...)
+		r.Count("adjacent=" + clause)
+		if !bytes.Equal(want, out) {
+			r.Violate("C13", clause, caseLine, fmt.Sprintf("out=%q but %s => %q, then %q, then %s => %q", out,
+				showTwOps(ops[:i+1]), realOut(ops[:i+1]), mid, showTwOps(ops[j+2:]), realOut(ops[j+2:])))
 		}
 	}
 }
